@@ -114,6 +114,7 @@ SEEDS = {
                "SELECT ?s WHERE { ?s <http://x/p> \"a\\u00e9\\n\\t\\\\\\\"b\" . ?s <http://x/q> '''x\\U0001F40E\\u0041''' FILTER(?s != 'c\\u0042') }"],
 }
 SUBST = ["\x00", "\"", "'", "\\", "(", ")", "{", "}", "[", "]", "é", "\U0001F40E", "\n", "`", "$", "-", "9", ".", "*", ":", "<", ">", "/", "#", "\t", "‮", "﻿"]
+SUBST_QUICK = ["\x00", "\"", "\\", "(", "{", "é", "\U0001F40E", "\n", "$"]
 PARAMS = [{"p": None}, {"p": True}, {"p": -1}, {"p": 9223372036854775807}, {"p": 1.5}, {"p": "x"}, {"p": [1, 2]}, {"v": "notanint"}, {}, {"p": 1e308}]
 
 
@@ -124,9 +125,9 @@ def mutation_corpus(lang, tier):
         texts.append({"text": s})
         for i in range(len(s)):                      # every truncation
             texts.append({"text": s[:i]})
-        step = 1 if tier != "quick" else 3
+        step = 1 if tier != "quick" else 2
         for i in range(0, len(s), step):             # substitutions and insertions
-            for c in (SUBST if tier != "quick" else SUBST[:: 4]):
+            for c in (SUBST if tier != "quick" else SUBST_QUICK):
                 texts.append({"text": s[:i] + c + s[i + 1:]})
                 if tier != "quick":
                     texts.append({"text": s[:i] + c + s[i:]})
@@ -239,7 +240,7 @@ def run(tier, seed):
             rule="evaluations = inputs executed (each on a populated and on an empty database; GQL texts containing $p also with a parameter map). "
                  "Inputs: every token sequence of length <= 2 (quick) / <= 3 (thorough) over each language's alphabet (52-68 tokens: keywords, punctuation, extreme numbers, unterminated strings, NUL, backslash, non-ASCII) "
                  "enumerated by TLC from QueryGen.tla + bracket-balanced random behaviours up to 8 / 12 tokens (TLC simulation); plus per language a mutation corpus of 6-13 valid queries: every truncation, "
-                 "every position replaced by (and in the thorough tier also preceded by) each of 27 special characters, 10 parameter maps, bracket / operator nests of depth 10..10^4 (10^5 thorough), literals and identifiers up to 10^6 characters")
+                 "every position (every second one in the quick tier) replaced by (and in the thorough tier also preceded by) each of 27 (quick: 9, always including two multi-byte) special characters, 10 parameter maps, bracket / operator nests of depth 10..10^4 (10^5 thorough), literals and identifiers up to 10^6 characters")
     rep.assumptions += ["a call is a hang if a batch of inputs exceeds 120 s and the single input then exceeds the per-input limit; memory exhaustion is detected only as an abort of the child",
                         "the C binding (crates/bindings/c) is not built here: it forwards to the same Session calls, so an unwinding panic found here is the FFI hazard the property describes",
                         "the judgement Outcome in {ok, err} is evaluated by TLC over the recorded outcomes (Trace_Front.tla); the front ends' grammar is not modelled: the model is the input space"]
